@@ -114,7 +114,7 @@ def roles(p):
     def trans(fi, pred):
         return pred(fi) or any(pred(byname[c]) for c in closure(fi))
 
-    find = [fi for fi in cand if trans(fi, lambda f_: calls_attr(f_, "from_string"))]
+    find = [fi for fi in cand if trans(fi, lambda f_: calls_attr(f_, "from_string") or calls_attr(f_, "from_xml"))]
     find = [fi for fi in find if not any(byname[c] in find for c in closure(fi))] or find
     tagged = [fi for fi in cand if stores_data(fi) and trans(fi, lambda f_: mentions_self(f_, "allowed_tags"))]
     # innermost: does not call another candidate of the same kind
@@ -212,6 +212,21 @@ def grow_events(evs):
     return out
 
 
+def over_threshold(a_) -> bool:
+    """Does this assumption establish 'length > threshold' (in any spelling: l > t true, l <= t false, t < l true, t >= l false)?"""
+    c = a_.data["cond"]
+    if not (isinstance(c, Term) and c.op == "cmp" and len(c.args) >= 3):
+        return False
+    TH = "max_buffer_size_before_frontal_cleanup"
+    op, l, r = c.args[0], show(c.args[1]), show(c.args[2])
+    truth = a_.data["truth"]
+    if TH in r and TH not in l:
+        return (op in (">", ">=") and truth) or (op in ("<=", "<") and not truth)
+    if TH in l and TH not in r:
+        return (op in ("<", "<=") and truth) or (op in (">=", ">") and not truth)
+    return False
+
+
 def threshold_none_path(pa) -> Optional[bool]:
     """True: the path assumed the threshold disabled (None); False: enabled; None: not tested."""
     for e in pa.assumes():
@@ -284,7 +299,7 @@ def check_find_progress(ctx, rule):
         callee = ev.data.get("callee")
         if isinstance(callee, Foreign) and callee.dotted.endswith(".fromstring"):
             return "ParseError"
-        if isinstance(callee, Fn) and callee.fi.name == "from_string":
+        if isinstance(callee, Fn) and callee.fi.name in ("from_string", "from_xml"):
             return "Exception"
         return None
 
@@ -318,6 +333,38 @@ def check_find_progress(ctx, rule):
         ctx.holds(rule, f.short, f"{nsteps} iteration steps: position = find('>', previous position) + 1 with the not-found case returned before", fi=f)
 
 
+def parsed_prefix(t):
+    """The text a message term was parsed from: IndiMessage.from_string(<text>) or IndiMessage.from_xml(ET.fromstring(<text>))."""
+    if not (isinstance(t, Term) and t.op == "call" and isinstance(t.args[0], Fn) and t.args[0].fi.module.name.startswith("indi.message") and t.args[1]):
+        return None
+    nm = t.args[0].fi.name
+    if nm == "from_string":
+        return t.args[1][0]
+    if nm == "from_xml":
+        x = t.args[1][0]
+        if isinstance(x, Term) and x.op == "call" and isinstance(x.args[0], Foreign) and x.args[0].dotted.endswith("fromstring") and x.args[1]:
+            return x.args[1][0]
+    return None
+
+
+def message_parse_calls(evs):
+    """[(call event, text it parses)] for the message-parser calls among the events."""
+    out = []
+    for e in evs:
+        if e.kind == "call":
+            pfx = parsed_prefix(e.data["term"])
+            if pfx is not None:
+                out.append((e, pfx))
+    return out
+
+
+def prefix_end(pfx):
+    """END of a prefix data[:END], else None."""
+    if isinstance(pfx, Term) and pfx.op == "sub" and isinstance(pfx.args[1], Term) and pfx.args[1].op == "slice" and pfx.args[1].args[0] is None and _is_data_read(pfx.args[0]):
+        return pfx.args[1].args[1]
+    return None
+
+
 def check_guard(ctx, rule):
     """The consumer is called only with a message parsed by IndiMessage.from_string."""
     f, paths = explore_process(ctx)
@@ -327,7 +374,7 @@ def check_guard(ctx, rule):
         for e in callback_calls(pa.events):
             n += 1
             a = e.data["args"][0] if e.data["args"] else None
-            ok = isinstance(a, Term) and a.op == "call" and isinstance(a.args[0], Fn) and a.args[0].fi.name == "from_string" and a.args[0].fi.module.name.startswith("indi.message")
+            ok = parsed_prefix(a) is not None
             if not ok:
                 ctx.violated(rule, f.short, f"the consumer is called with {show(a) if a is not None else None}, which is not a parsed protocol message", fi=f, node=e.node, text=f"callback-arg:{show(a)[:30] if a is not None else None}")
                 bad = True
@@ -337,7 +384,7 @@ def check_guard(ctx, rule):
     if n == 0:
         ctx.violated(rule, f.short, "the consumer is never called", fi=f, text="no-callback")
     elif not bad:
-        ctx.holds(rule, f.short, f"{n} consumer calls over {len(paths)} paths, each with the result of IndiMessage.from_string", fi=f)
+        ctx.holds(rule, f.short, f"{n} consumer calls over {len(paths)} paths, each with a message the parser built from buffer text", fi=f)
 
 
 def check_contain(ctx, rule):
@@ -423,12 +470,12 @@ def check_consume(ctx, rule):
                 ctx.violated(rule, f.short, f"the consumer is reached with {show(msg) if msg is not None else None}: no parsed prefix was consumed on this path (something other than a sent message is delivered)", fi=f, text=f"no-prefix:{show(msg)[:20] if msg is not None else None}")
                 bad = True
                 continue
-            src = msg.args[1][0]
-            if not (isinstance(src, Term) and src.op == "sub" and isinstance(src.args[1], Term) and src.args[1].op == "slice" and _is_data_read(src.args[0]) and src.args[1].args[0] is None):
-                ctx.violated(rule, f.short, f"the delivered message is not parsed from a prefix of the buffer: {show(src)[:60]}", fi=f, text="not-prefix")
+            src = parsed_prefix(msg)
+            end = prefix_end(src) if src is not None else None
+            if end is None:
+                ctx.violated(rule, f.short, f"the delivered message is not parsed from a prefix of the buffer: {show(src if src is not None else msg)[:60]}", fi=f, text="not-prefix")
                 bad = True
                 continue
-            end = src.args[1].args[1]
             stores = [e for e in evs if e.kind == "store" and e.data.get("attr") == "data" and show(e.data["base"]) == "self"]
             consume = [e for e in stores if isinstance(e.data["value"], Term) and e.data["value"].op == "sub" and isinstance(e.data["value"].args[1], Term) and e.data["value"].args[1].op == "slice" and e.data["value"].args[1].args[0] is end]
             if len(consume) != 1 or len(stores) != 1:
@@ -644,12 +691,7 @@ def check_discard(ctx, rule):
                 if not (isinstance(lo, Const) and isinstance(lo.v, int)):
                     # a symbolic cut must be the end of a prefix that the scan of this iteration handed to the message
                     # parser (delivered: CONSUME, rejected: RECOVER); anything else drops text nobody looked at
-                    ends = []
-                    for x in evs:
-                        if x.idx < e.idx and x.kind == "call" and is_call(x.data["term"], method="from_string") and x.data["args"]:
-                            a_ = x.data["args"][0]
-                            if isinstance(a_, Term) and a_.op == "sub" and isinstance(a_.args[1], Term) and a_.args[1].op == "slice" and a_.args[1].args[0] is None:
-                                ends.append(show(a_.args[1].args[1]))
+                    ends = [show(prefix_end(pfx)) for x, pfx in message_parse_calls(evs) if x.idx < e.idx and prefix_end(pfx) is not None]
                     if lo is None or show(lo) not in ends:
                         okc, why = False, f"the buffer is cut at {show(lo)[:60] if lo is not None else show(v)[:60]}, which is neither the end of a prefix handed to the message parser in this iteration nor the single-character drop: text that may belong to a valid message is discarded unseen"
                     continue
@@ -657,7 +699,7 @@ def check_discard(ctx, rule):
                 if classify_store(pa.interp, v) != ("suffix", 1) or lo.v != 1:
                     okc, why = False, f"a constant truncation {show(v)[:40]} that is not the single-character drop"
                     continue
-                guards = [a_ for a_ in pa.assumes() if a_.idx < e.idx and a_.data["truth"] and isinstance(a_.data["cond"], Term) and a_.data["cond"].op == "cmp" and "max_buffer_size_before_frontal_cleanup" in show(a_.data["cond"]) and a_.data["cond"].args[0] in (">", ">=") and any(x is a_ for x in evs)]
+                guards = [a_ for a_ in pa.assumes() if a_.idx < e.idx and any(x is a_ for x in evs) and over_threshold(a_)]
                 if not guards or threshold_none_path(pa) is True:
                     okc, why = False, "the single-character drop is reachable without 'length > threshold' having been established in that iteration (or with the threshold disabled)"
                 if not any(x.kind == "call" and is_call(x.data["term"], method=R["RESYNC"]) and x.idx > e.idx for x in evs):
@@ -792,7 +834,7 @@ def check_recover(ctx, rule):
     n = 0
     for pa in paths:
         import ast as _ast
-        rej = [e for e in pa.events if e.kind == "raise" and e.data.get("implicit") and e.node is not None and "from_string" in _ast.unparse(e.node)]
+        rej = [e for e in pa.events if e.kind == "raise" and e.data.get("implicit") and e.node is not None and any(k in _ast.unparse(e.node) for k in ("from_string", "from_xml"))]
         if not rej:
             continue
         for it_idx, evs, how in iteration_segments(pa, f):
@@ -802,11 +844,10 @@ def check_recover(ctx, rule):
             n += 1
             last = seg_rej[-1]
             # ... and by exactly its own length: the slice must start where the rejected prefix ended
-            calls_ = [e for e in evs if e.idx < last.idx and e.kind == "call" and is_call(e.data["term"], method="from_string") and e.data["args"]]
-            own = [e for e in evs if e.idx > last.idx and e.kind == "store" and e.data.get("attr") == "data" and show(e.data["base"]) == "self" and e.fn is f]
+            calls_ = [(x, pfx) for x, pfx in message_parse_calls(evs) if x.idx < last.idx]
+            own = [e for e in evs if e.idx > last.idx and e.kind == "store" and e.data.get("attr") == "data" and show(e.data["base"]) == "self"]
             if calls_ and own:
-                a = calls_[-1].data["args"][0]
-                pend = a.args[1].args[1] if isinstance(a, Term) and a.op == "sub" and isinstance(a.args[1], Term) and a.args[1].op == "slice" and a.args[1].args[0] is None else None
+                pend = prefix_end(calls_[-1][1])
                 v = own[0].data["value"]
                 start = v.args[1].args[0] if isinstance(v, Term) and v.op == "sub" and isinstance(v.args[1], Term) and v.args[1].op == "slice" and v.args[1].args[1] is None else None
                 if pend is None or start is None or show(pend) != show(start) or len(own) != 1:
